@@ -156,7 +156,8 @@ def white_case(rec, seedt):
 def fft_case(rec, seedt):
     from speckit import noise
     rng = gen.rng_for(*seedt)
-    N = int(rng.choice([2, 3, 4, 5, 8, 9, 64, 65, 1000, 1001, int(rng.integers(2, 3000))]))
+    N = int(rng.choice([2, 3, 4, 5, 8, 9, 64, 65, 1000, 1001, int(rng.integers(2, 3000)),
+                        4096, 4097, 16385, 65536, 65537]))
     kind = str(rng.choice(["complex", "real-mag", "one-sided", "ones"]))
     if kind == "complex":
         F = rng.standard_normal(N) + 1j * rng.standard_normal(N)
